@@ -21,7 +21,11 @@ package breaking
 // C20: breaking exits 0 only if no annotation was collected; printed annotations always give a non-zero status.
 //@ func run(ctx, container, flags) (retErr)
 //@   property C20
-//@   modifies heap, ghost.annotPrinted, ghost.fail, ghost.wfail, ghost.sinkPaths, ghost.sinkBuckets, ghost.lastPutOptions, ghost.buf, ghost.hdrVals
+//@   modifies heap, ghost.annotPrinted, ghost.fail, ghost.wfail, ghost.sinkPaths, ghost.sinkBuckets, ghost.lastPutOptions, ghost.buf, ghost.hdrVals, ghost.hdrKeys
 //@   ensures printed-nonzero: ghost.annotPrinted && !old(ghost.annotPrinted) ==> retErr != nil
 //@   assert before "return nil" clean-only-when-empty: len(allFileAnnotations) == 0
+// (r4f) image pairing and flag forwarding: the i-th image is checked against the i-th against-image; a length mismatch is an error; --limit-to-input-files narrows the against input to the input's files, otherwise the --path values are used
+//@   assert before "allCheckConfigs := make(" every-image-has-its-against-image: len(imageWithConfigs) == len(againstImages)
+//@   assert before "if err := checkClient.Breaking(" ith-image-against-ith-against-image: 0 <= i && i < len(againstImages) && imageWithConfig == imageWithConfigs[i]
+//@   assert before "againstImagesWithConfigs, _, err := controller.GetTargetImageWithConfigsAndCheckClient(" limit-to-input-files-forwarded: flags.LimitToInputFiles || externalPaths == flags.Paths
 //@   assert before "return bufctl.ErrFileAnnotation" printed-before-100: ghost.annotPrinted
